@@ -63,3 +63,23 @@ package types
 //@   trusted
 //@   ensures c == nil ==> result == 0
 //@   ensures c != nil ==> result == estSize(seq(c.Bridges), len(c.Bridges), seq(c.Claims), len(c.Claims), c.CertificateType)
+
+// ---- certificate metadata codec (C03, C13): a 32-byte word; byte 0 = version, bytes 1..8 = first block,
+// 9..12 = number of further blocks, 13..16 = creation time, 17 = certificate type (version 2)
+
+//@ func (c *CertificateMetadata) ToHash
+//@   props C03 C13
+//@   requires c != nil
+//@   ensures[version] (c.Version == 1 || c.Version == 2) ==> hb(result)[0] == c.Version
+//@   ensures[first-block] (c.Version == 1 || c.Version == 2) ==> beVal(hb(result), 1, 8) == c.FromBlock
+//@   ensures[offset] (c.Version == 1 || c.Version == 2) ==> beVal(hb(result), 9, 4) == c.Offset
+//@   ensures[created-at] (c.Version == 1 || c.Version == 2) ==> beVal(hb(result), 13, 4) == c.CreatedAt
+//@   ensures[cert-type] c.Version == 2 ==> hb(result)[17] == c.CertType
+
+//@ func NewCertificateMetadataFromHash
+//@   props C03 C13
+//@   requires forall(i, 0, 32, 0 <= hb(hash)[i] && hb(hash)[i] <= 255)
+//@   ensures[unsupported] hb(hash)[0] > 2 ==> result1 != nil
+//@   ensures[supported] hb(hash)[0] <= 2 ==> result1 == nil && result0 != nil && result0.Version == hb(hash)[0]
+//@   ensures[decode] (hb(hash)[0] == 1 || hb(hash)[0] == 2) ==> result0.FromBlock == beVal(hb(hash), 1, 8) && result0.Offset == beVal(hb(hash), 9, 4) && result0.CreatedAt == beVal(hb(hash), 13, 4)
+//@   ensures[decode-type] hb(hash)[0] == 2 ==> result0.CertType == hb(hash)[17]
